@@ -5,7 +5,8 @@ import . "vh/vhlib"
 func main() {
 	Main(map[string]CmdFn{
 		"gen": func(a []string) int { return RunGen(gens, a) },
-		"c06": c06,
-		"c16": c16,
+		"c04": c04,
 	})
 }
+
+func init() { quietLogs() }
